@@ -15,7 +15,7 @@
    t with the scripted mutations mus). *)
 From Coq Require Import ZArith List Bool.
 From Tickit Require Import RectDefs WinRectSet WinDefs WinSpec WinInput WinInputSpec WinInputProofs WinInputMutBase WinInputMutKey WinInputMutMouse WinInputMutation.
-From Tickit Require WinLogDisjoint WinShowSpec.
+From Tickit Require WinLogDisjoint WinShowSpec WinHideSpec.
 Import ListNotations.
 Local Open Scope Z_scope.
 
@@ -95,6 +95,18 @@ Theorem C14_hidden_never : forall t w path n,
   ~ In w (key_order t) /\ forall line col l c, ~ In (w, l, c) (mouse_order t line col).
 Proof. exact (@WinInputProofs.C14_hidden_never). Qed.
 Print Assumptions C14_hidden_never.
+
+(* ... the synthesised drag events included: nothing is sent to a drag source that is hidden or
+   lies below a hidden window (to_source_spec), and no event of a whole terminal mouse event --
+   START, DRAG, OUTSIDE, DROP, STOP, RELEASE, whatever the drag state -- goes to such a window.
+   (Defect C14-c, repaired: the direct delivery to the drag source looked at the source's own
+   visibility only.) *)
+Theorem C14_hidden_never_drag : forall claims t w path n ty btn line col,
+  NoDup (t_ids t) -> t_path w t = Some path -> In n path -> w_vis (t_info n) = false ->
+  to_source_spec claims t (Some w) ty btn line col = [] /\
+  forall ds ty' e, raw_ty ty' -> In e (fst (mouse_spec claims t ds ty' btn line col)) -> iev_win e <> w.
+Proof. exact (@WinInputProofs.C14_hidden_never_drag). Qed.
+Print Assumptions C14_hidden_never_drag.
 
 (* the drag bracket rules, for every sequence of raw events *)
 Theorem C14_drag : forall claims t pre ty btn line col,
@@ -295,6 +307,24 @@ Example C14_show_refutes_one_level :
   w_fchild (t_info (r_tree (win_show no_defects (WinShowSpec.st_of WinShowSpec.one_level_before) 1))) = Some 1.
 Proof. exact WinShowSpec.show_refutes_one_level. Qed.
 Print Assumptions C14_show_refutes_one_level.
+
+(* tickit_window_hide and the focus links (oracle clause c15_hide_checkb on the trees reported before
+   and after every hide): the parent's link is dropped exactly when it names the hidden window,
+   whatever that window holds; nothing else changes.  The model's hide meets it (every defect
+   configuration), and the checker rejects a hidden window that stays linked *)
+Theorem C14_hide_links : forall cfg st id,
+  WinLogDisjoint.ids_unique (r_tree st) ->
+  c15_hide_checkb id (r_tree st) (r_tree (win_hide cfg st id)) = true.
+Proof. exact WinHideSpec.hide_meets_spec. Qed.
+Print Assumptions C14_hide_links.
+
+Example C14_hide_refutes_stays_linked :
+  WinLogDisjoint.ids_unique WinHideSpec.stays_before /\
+  c15_hide_checkb 1 WinHideSpec.stays_before WinHideSpec.stays_seeded = false /\
+  c15_hide_checkb 1 WinHideSpec.stays_before (r_tree (win_hide no_defects (WinShowSpec.st_of WinHideSpec.stays_before) 1)) = true /\
+  w_fchild (t_info (r_tree (win_hide no_defects (WinShowSpec.st_of WinHideSpec.stays_before) 1))) = None.
+Proof. exact WinHideSpec.hide_refutes_stays_linked. Qed.
+Print Assumptions C14_hide_refutes_stays_linked.
 
 Example C14_nonvacuous :
   key_order tree_nv = [1; 5; 2; 6; 0; 4] /\
